@@ -60,8 +60,8 @@ type c15case struct {
 }
 
 type c15item struct {
-	body   string // template body source
-	want   string // expected output ("" with weak=true: see wantFn)
+	body   string                  // template body source
+	want   string                  // expected output ("" with weak=true: see wantFn)
 	weak   func(out string) string // alternative oracle: returns "" if fine, else complaint
 	ctx    string
 	sigcls string
@@ -129,7 +129,10 @@ func checkC15(c *Ctx) {
 	flush()
 	// comments: every placement relative to text and line ends.
 	pieces := []string{"", "a", "a ", " a", "a\n", "\na", "<", "a<", "> ", "a\n ", " \n", "b b"}
-	comments := []struct{ src string; line bool }{{"// c", true}, {"//c", true}, {"/* c */", false}, {"/*c*/", false}, {"/* c\nc */", false}, {"/**/", false}}
+	comments := []struct {
+		src  string
+		line bool
+	}{{"// c", true}, {"//c", true}, {"/* c */", false}, {"/*c*/", false}, {"/* c\nc */", false}, {"/**/", false}}
 	for _, t1 := range pieces {
 		for _, t2 := range pieces {
 			for _, cm := range comments {
